@@ -38,6 +38,26 @@ Theorem C02_rounding : forall rnd : Q -> Q,
   move_dist_t3_r rnd (Z.of_nat T) rate accel jerk accum = move_dist_t3 (Z.of_nat T) rate accel jerk accum.
 Proof. exact move_dist_t3_rounding. Qed.
 
+(* rate_t3 in the float arithmetic CPython uses: exact on the domain, for any rounding operator that fixes binary64 numbers *)
+Theorem C02_rate_float_exact : forall rnd : Q -> Q,
+  (forall x y, (x == y)%Q -> (rnd x == rnd y)%Q) -> (forall x, rep53 x -> (rnd x == x)%Q) ->
+  forall time rate accel jerk, 0 <= time <= 2 ^ 32 -> Z.abs rate <= 2 ^ 34 -> Z.abs accel <= 2 ^ 32 -> Z.abs jerk <= 2 ^ 32 ->
+  Z.abs (2 * accel - jerk) * time <= 2 ^ 50 -> Z.abs jerk * time * time <= 2 ^ 50 ->
+  rate_t3_r rnd time rate accel jerk = rate_t3 time rate accel jerk.
+Proof. exact rate_t3_float_exact. Qed.
+
+(* the three hypotheses on the rounding operator are satisfiable (the exact operator meets them; round-to-nearest at 103 bits is the
+   intended instance, part of the trusted base), and the domain hypotheses are met by a concrete long move with jerk not divisible by 6 *)
+Example C02_rounding_nonvacuous :
+  let rnd := fun x : Q => x in
+  (forall x y, (x == y)%Q -> (rnd x == rnd y)%Q) /\ (forall x, rep103 x -> (rnd x == x)%Q) /\ (forall x, (Qabs (rnd x - x) <= eps103 * Qabs x)%Q) /\
+  move_dist_t3_r rnd (Z.of_nat 1000) 2000000000 (-1000) 1 None = move_dist_t3 (Z.of_nat 1000) 2000000000 (-1000) 1 None.
+Proof.
+  cbv zeta. split; [intros x y E; exact E|]. split; [reflexivity|]. split.
+  - intros x. setoid_replace (x - x)%Q with 0%Q by ring. cbn [Qabs]. apply Qmult_le_0_compat; [discriminate|apply Qabs_nonneg].
+  - vm_compute. reflexivity.
+Qed.
+
 (* non-vacuity: negative jerk not divisible by 6, odd accel, first two tick rates zero -> cleared to 2^31-1 *)
 Example C02_example : t3_spec_dist 7 (-3) 5 (-7) None = (0, 2147483353) /\ move_dist_t3 7 (-3) 5 (-7) None = (0, 2147483353)
   /\ t3_spec_rate 7 (-3) 5 (-7) = -118 /\ t3_spec_dist 4 0 1 (-1) None = (0, 0).
@@ -49,3 +69,4 @@ Print Assumptions C02_closed_form.
 Print Assumptions C02_zero_jerk.
 Print Assumptions C02_checker_is_spec.
 Print Assumptions C02_rounding.
+Print Assumptions C02_rate_float_exact.
